@@ -204,7 +204,7 @@ func vmFsmReplay(dir string, useProto bool, entries []*vfEntry, snapAfter int, t
 	res.outs = map[uint64]string{}
 	for _, e := range entries {
 		if msgs, ok := outputStream.Get(robust.Id{Id: e.idx}); ok {
-			res.outs[e.idx] = vfBatchDigest(msgs)
+			res.outs[e.idx] = vfBatchDigest(msgs, e.idx)
 		}
 	}
 	res.marker = map[uint64]uint64{}
@@ -221,6 +221,7 @@ func vmRunCase(line string, base string, n int) (result string) {
 	}
 	id := f[2]
 	useProto := f[3] == "1"
+	vfAliveAfter = map[uint64]map[uint64]bool{}
 	out := []string{"fsm mod " + id}
 	defer func() {
 		if r := recover(); r != nil {
